@@ -1,5 +1,23 @@
-/- Line-protocol handler for C02 (stub until the model exists). -/
-import NoulithModel.Common
+/- Line-protocol handler for C02: the cost ledger of the C01 reference-counted heap.
+Request:  `cost <holders> <n> <nvars> <stmt> <stmt> …` (statement tokens as in Driver/C01.lean).
+Response: `ok <copied> <pushes> <allocs>\t ok <holders*n>`: the Impl ledger after the whole history
+(elements copied by make_mut on shared payloads, elements pushed, number of allocations made) and the
+bound the property allows for a workload whose target collection of n elements has `holders` additional
+holders (0 for an unshared collection). -/
+import NoulithModel.Driver.C01
+
 namespace Noulith.DriverC02
-def handle (_args : List String) : String := "bad-op"
+open Noulith Noulith.RcHeap
+
+def handle (args : List String) : String :=
+  match args with
+  | "cost" :: hs :: ns :: nv :: toks =>
+    match hs.toNat?, ns.toNat?, nv.toNat?, toks.mapM DriverC01.parseStmt with
+    | some holders, some n, some nvars, some stmts =>
+      let s := RcHeap.run (State.init nvars) stmts
+      s!"ok {s.h.copied} {s.h.pushes} {s.h.allocs.length}\tok {holders * n}"
+    | _, _, _, _ => "bad-op"
+  | "run" :: _ => DriverC01.handle args
+  | _ => "bad-op"
+
 end Noulith.DriverC02
